@@ -118,9 +118,7 @@ Proof.
   destruct (sph_pack (tc_sph t)) as [hb|] eqn:Eh; [|discriminate]. cbn [bind] in E.
   destruct (tcsec_pack (tc_sec t)) as [sb|] eqn:Es; [|discriminate]. cbn [bind] in E.
   assert (Wh : wf_bytes hb).
-  { unfold sph_pack in Eh. unfold struct_pack in Eh.
-    repeat match type of Eh with context [if ?c then _ else _] => destruct c; [|discriminate] end.
-    cbn [bind] in Eh. apply Ok_inj in Eh. subst hb. rewrite !wf_bytes_app. repeat split; apply be_encode_wf. }
+  { apply (sph_pack_ok_shape _ _ Eh). }
   assert (Ws : wf_bytes sb).
   { unfold tcsec_pack, ba_append, struct_pack in Es.
     repeat match type of Es with context [if ?c then _ else _] => destruct c eqn:?; [|discriminate] end.
@@ -174,9 +172,7 @@ Proof.
   destruct (sph_pack (tm_sph t)) as [hb|] eqn:Eh; [|discriminate]. cbn [bind] in E.
   destruct (tmsec_pack (tm_sec t)) as [sb|] eqn:Es; [|discriminate]. cbn [bind] in E.
   assert (Wh : wf_bytes hb).
-  { unfold sph_pack in Eh. unfold struct_pack in Eh.
-    repeat match type of Eh with context [if ?c then _ else _] => destruct c; [|discriminate] end.
-    cbn [bind] in Eh. apply Ok_inj in Eh. subst hb. rewrite !wf_bytes_app. repeat split; apply be_encode_wf. }
+  { apply (sph_pack_ok_shape _ _ Eh). }
   assert (Ws : wf_bytes sb).
   { unfold tmsec_pack, ba_append, struct_pack in Es.
     repeat match type of Es with context [if ?c then _ else _] => destruct c eqn:?; [|discriminate] end.
